@@ -1088,4 +1088,111 @@ theorem Inv.apply (fl : Flags) (hfl : fl.readyGuarded = true) {s : St} (h : Inv 
         · rename_i e; subst e; exact ⟨rfl, rfl⟩
         · exact ⟨rfl, rfl⟩
 
+/-! ### reachable states -/
+
+/-- all three repairs present (the current source, `Properties/C04.scheduler_flags`). -/
+def flOK : Flags := { readyGuarded := true, resubmitRegisters := true, abortRechecks := true }
+
+/-- run a list of events. -/
+def run (fl : Flags) (s : St) (evs : List Ev) : St := evs.foldl (St.apply fl) s
+
+/-- `s` is the state after some list of events (any workload, any schedule, any length). -/
+def Reachable (fl : Flags) (totals : List Nat) (s : St) : Prop :=
+  ∃ evs : List Ev, s = run fl (St.init totals) evs
+
+/-- well-formedness of an event as the API produces it: a submission names earlier jobs and existing
+    tokens with a positive count.  None of the C04 theorems needs it: they hold for every event list. -/
+def EvOK (s : St) : Ev → Prop
+  | .submit _ deps _ _ => ∀ o ∈ deps, match o with
+      | .job d => d < s.n
+      | .tok t c => t < s.ntok ∧ 0 < c
+  | _ => True
+
+/-- reachability through well-formed events only. -/
+inductive ReachableOK (fl : Flags) (totals : List Nat) : St → Prop
+  | init : ReachableOK fl totals (St.init totals)
+  | step {s : St} (ev : Ev) : ReachableOK fl totals s → EvOK s ev → ReachableOK fl totals (s.apply fl ev)
+
+theorem Reachable.apply {fl : Flags} {totals : List Nat} {s : St} (h : Reachable fl totals s) (ev : Ev) :
+    Reachable fl totals (s.apply fl ev) := by
+  obtain ⟨evs, rfl⟩ := h
+  exact ⟨evs ++ [ev], by simp [run, List.foldl_append]⟩
+
+theorem Reachable.run {fl : Flags} {totals : List Nat} {s : St} (h : Reachable fl totals s) (evs : List Ev) :
+    Reachable fl totals (run fl s evs) := by
+  obtain ⟨evs0, rfl⟩ := h
+  exact ⟨evs0 ++ evs, by simp [SchedDeps.run, List.foldl_append]⟩
+
+theorem ReachableOK.reachable {fl : Flags} {totals : List Nat} {s : St} (h : ReachableOK fl totals s) :
+    Reachable fl totals s := by
+  induction h with
+  | init => exact ⟨[], rfl⟩
+  | step ev _ _ ih => exact ih.apply ev
+
+theorem Inv.init (totals : List Nat) : Inv (St.init totals) := by
+  refine ⟨fun j => ?_, fun _ _ => rfl, ?_, ?_, ?_, ?_, ?_⟩
+  · show JLoc' _ _ _ _ _
+    constructor <;> simp [St.init]
+  · intro j d hd; simp [St.init] at hd
+  · intro cb hcb; simp [St.init] at hcb
+  · intro j; simp [St.init]
+  · intro o p hp; simp [St.init] at hp
+  · intro o p hp; simp [St.init] at hp
+
+theorem Inv.run (fl : Flags) (hfl : fl.readyGuarded = true) : ∀ (evs : List Ev) {s : St}, Inv s →
+    Inv (run fl s evs) ∧ ∀ o, (s.jobs o).state = .done → ((run fl s evs).jobs o).state = .done := by
+  intro evs
+  induction evs with
+  | nil => intro s h; exact ⟨h, fun _ e => e⟩
+  | cons ev evs ih =>
+    intro s h
+    obtain ⟨h1, t1⟩ := h.apply fl hfl ev
+    obtain ⟨h2, t2⟩ := ih h1
+    exact ⟨h2, fun o e => t2 o (t1.done o e)⟩
+
+theorem Reachable.inv {fl : Flags} (hfl : fl.readyGuarded = true) {totals : List Nat} {s : St}
+    (h : Reachable fl totals s) : Inv s := by
+  obtain ⟨evs, rfl⟩ := h
+  exact (Inv.run fl hfl evs (Inv.init totals)).1
+
+/-! ### inside a `submit` event: the callbacks it runs -/
+
+/-- the state in which `submit` starts running callbacks (`St.apply`, `.submit` case, before `St.steps`). -/
+def submitPre (s : St) (ident : Nat) (deps : List Origin) (code : Nat) (marker : Bool) : St :=
+  { s with n := s.n + 1,
+           jobs := upd s.jobs s.n { ident := ident, deps := deps.map (fun o => match o with
+                    | .job d => { origin := .job (s.eff d) : Dep }
+                    | o => { origin := o }), code := code, marker := marker },
+           regResult := none, ready := s.ready ++ [.register s.n] }
+
+/-- `submit` = `St.steps` from `submitPre` for `ready.length + 1` callbacks, then the creation of the task. -/
+theorem apply_submit_eq (fl : Flags) (s : St) (ident : Nat) (deps : List Origin) (code : Nat) (marker : Bool) :
+    s.apply fl (.submit ident deps code marker) =
+      (let s2 := St.steps fl (submitPre s ident deps code marker) (s.ready.length + 1)
+       match s2.regResult with
+       | some (some o) => { s2 with eff := upd s2.eff s.n o }
+       | _ => ({ s2 with eff := upd s2.eff s.n s.n }).put s.n { (s2.jobs s.n) with pc := .created } [.start s.n]) := rfl
+
+theorem Inv.submitPre {s : St} (h : Inv s) (ident : Nat) (deps : List Origin) (code : Nat) (marker : Bool) :
+    Inv (submitPre s ident deps code marker) := by
+  have h0 : Inv' (s.n + 1) (upd s.jobs s.n { ident := ident, deps := deps.map (fun o => match o with
+                    | .job d => { origin := .job (s.eff d) : Dep }
+                    | o => { origin := o }), code := code, marker := marker }) s.ready s.jobDeps s.tokDeps := by
+    apply Inv'.submitFresh h _ rfl rfl _ rfl rfl
+    intro d hd
+    obtain ⟨o, _, rfl⟩ := List.mem_map.mp hd
+    cases o <;> rfl
+  apply Inv'.addReady h0
+  intro cb hcb; simp at hcb; subst hcb; exact ⟨trivial, trivial⟩
+
+/-- one callback: if it launches `j`, then `j` was at `lockEnter` and all its job dependencies are `done`
+    before and after the callback. -/
+theorem Inv.step_launch (fl : Flags) (hfl : fl.readyGuarded = true) {s : St} (h : Inv s) (j : Nat)
+    (hl : ((s.step fl).jobs j).launches > (s.jobs j).launches) :
+    (s.jobs j).pc = .lockEnter ∧
+    ∀ d ∈ (s.jobs j).deps, ∀ o, d.origin = .job o → (s.jobs o).state = .done ∧ ((s.step fl).jobs o).state = .done := by
+  obtain ⟨_, t1⟩ := h.step fl hfl
+  have hpc := (t1 j).launch hl
+  exact ⟨hpc, fun d hd o ho => ⟨h.lockEnter_done hpc d hd o ho, (t1 o).done (h.lockEnter_done hpc d hd o ho)⟩⟩
+
 end XpmVerif.SchedDeps
